@@ -8,7 +8,7 @@ MANIFEST_ENTRY = dict(
     technique="TLC model checking of spec/MCWallet.tla + TLC-generated behaviours replayed on the real code + TLC trace validation (spec/TraceWallet.tla) against the real chain's UTXO set",
     note=WALLET_NOTE)
 
-PARAMS = dict(quick_cfgs=["MC_C04_quick.cfg", "MC_C04_self.cfg", "MC_C05_acct.cfg"], thorough_cfgs=["MC_C04.cfg", "MC_C04_b.cfg", "MC_C03_acct.cfg"], quick_n=140, thorough_n=500,
+PARAMS = dict(quick_cfgs=["MC_C04_quick.cfg", "MC_C04_self.cfg", "MC_C05_acct.cfg"], thorough_cfgs=["MC_C04.cfg", "MC_C04_b.cfg", "MC_C03_acct.cfg", "MC_C03_three.cfg@sim=500x30"], quick_n=140, thorough_n=500, mc_timeout=900,
               setup={"nfund": 1, "pad": 3, "fault_refresh": True, "fault_scans": 3}, assumptions=WALLET_ASSUME, extra_behaviours=[
     # directed (fixes/C04-5): the block with the wallet's coinbase candidate is mined, and BEFORE the wallet looks at the
     # chain the node asks again under that candidate's key for the next height; the refresh must record the coinbase
